@@ -656,7 +656,12 @@ func runLocal(r *vk.Run, c *localCfg) vk.Result {
 			}()
 			for _, in := range pre {
 				if !li.apply(in) {
-					vk.Fatalf("local/%s: prefix input %s not enabled", c.name, in)
+					// the scripted prefix no longer applies to this code (like a drifted target state): the search is not run and
+					// the run is not called exhaustive; the other searches go on
+					if len(hist) == 0 {
+						r.Capped(fmt.Sprintf("local/%s: prefix input %s is not enabled in the state the earlier inputs led to; search skipped", c.name, in))
+					}
+					return vk.Outcome{}
 				}
 				if k, w := li.observe(); k != "" {
 					if len(hist) == 0 {
